@@ -203,4 +203,58 @@ theorem compileS_again {s : Stmt} {il : Bool} {F F' : Frame} {code : LCode}
   have sf := compileS_frame s il F code F' h hw
   exact compileS_stable s il F code F' h hw F' sf.wf (sf.noRes hn) (FrameLe.refl _) sf.tc
 
+/-! ## `temporaries_used_in_frame` only grows -/
+
+theorem compileCond_tmax {c : Expr} {F F1 : Frame} {cc : Code} {rc : Reg}
+    (h : compileCond c F = some (cc, rc, F1)) : TmLe F F1 := by
+  simp only [compileCond, bind, Option.bind_eq_some_iff, Prod.exists, pure, Option.some.injEq, Prod.mk.injEq] at h
+  obtain ⟨cc', oc, F0, hc, rc', _, F2, hp, _, _, rfl⟩ := h
+  exact (compile_tmax _ _ _ _ _ _ hc).trans (popIf_tmax hp)
+
+theorem compileHdr_tmax {cond : Option (Expr × Bool)} {F F1 : Frame} {hdr : Option (Code × Reg × Bool)}
+    (h : compileHdr cond F = some (hdr, F1)) : TmLe F F1 := by
+  cases cond with
+  | none => simp [compileHdr] at h; obtain ⟨_, rfl⟩ := h; exact TmLe.refl _
+  | some p =>
+    obtain ⟨c, neg⟩ := p
+    simp only [compileHdr, bind, Option.bind_eq_some_iff, Prod.exists, pure, Option.some.injEq, Prod.mk.injEq] at h
+    obtain ⟨cc, rc, F2, hc, _, rfl⟩ := h
+    exact compileCond_tmax hc
+
+theorem compileS_tmax : ∀ (s : Stmt) (il : Bool) (F : Frame) (code : LCode) (F' : Frame),
+    compileS s il F = some (code, F') → TmLe F F' := by
+  intro s
+  induction s with
+  | expr e =>
+    intro il F code F' h
+    simp only [compileS, bind, Option.bind_eq_some_iff, Prod.exists, pure, Option.some.injEq, Prod.mk.injEq] at h
+    obtain ⟨c, o, F1, hc, _, rfl⟩ := h
+    exact compile_tmax _ _ _ _ _ _ hc
+  | seq a b iha ihb =>
+    intro il F code F' h
+    simp only [compileS, bind, Option.bind_eq_some_iff, Prod.exists, pure, Option.some.injEq, Prod.mk.injEq] at h
+    obtain ⟨ca, F1, ha, cb, F2, hb, _, rfl⟩ := h
+    exact (iha _ _ _ _ ha).trans (ihb _ _ _ _ hb)
+  | ite c t e iht ihe =>
+    intro il F code F' h
+    simp only [compileS, bind, Option.bind_eq_some_iff, Prod.exists, pure, Option.some.injEq, Prod.mk.injEq] at h
+    obtain ⟨cc, rc, F1, hc, ct, F2, ht, ce, F3, he, _, rfl⟩ := h
+    exact (compileCond_tmax hc).trans ((iht _ _ _ _ ht).trans (ihe _ _ _ _ he))
+  | ifThen c t iht =>
+    intro il F code F' h
+    simp only [compileS, bind, Option.bind_eq_some_iff, Prod.exists, pure, Option.some.injEq, Prod.mk.injEq] at h
+    obtain ⟨cc, rc, F1, hc, ct, F2, ht, _, rfl⟩ := h
+    exact (compileCond_tmax hc).trans (iht _ _ _ _ ht)
+  | loop cond b ihb =>
+    intro il F code F' h
+    simp only [compileS, bind, Option.bind_eq_some_iff, Prod.exists, pure, Option.some.injEq, Prod.mk.injEq] at h
+    obtain ⟨hdr, F1, hh, cb, F2, hb, _, rfl⟩ := h
+    exact (compileHdr_tmax hh).trans (ihb _ _ _ _ hb)
+  | brk | cont =>
+    intro il F code F' h
+    simp only [compileS] at h
+    split at h
+    · simp at h; obtain ⟨_, rfl⟩ := h; exact TmLe.refl _
+    · cases h
+
 end KotoVerif.Compile
